@@ -26,7 +26,8 @@
 (* plus one forwarder goroutine per block subscription (sb.fwd) and the    *)
 (* CALLERS (cs): GetBlock, GetCFilter, GetUtxo, a rescan goroutine,        *)
 (* SendTransaction, a reader of a block subscription; "sync" is the        *)
-(* condition that headers keep arriving.                                   *)
+(* condition that headers keep arriving; "update" is a Rescan.Update call  *)
+(* blocked on the hand-over to its (busy) rescan goroutine.                *)
 (*                                                                         *)
 (* The work manager is a mailbox per batch owner: gb/cf callers, ux the    *)
 (* utxo batchManager (block or filter fetch), rs the rescan, ch the        *)
@@ -63,20 +64,32 @@ vars == <<pool, q, g, bat, err, tries, w, mtx, ux, bc, sb, acts, cs, misc, abs, 
 
 Owners   == {"gb", "cf", "ux", "rs", "ch", "cg"}
 SubIds   == {"b", "u", "r"}
-AllKinds == 1..7
+AllKinds == 1..8
 MaxTries == 2      \* attempts per query before the batch fails
 MaxRs    == 2      \* blocks a catching-up rescan walks
 
 Closed(c) == c \in q
 
 ----------------------------------------------------------------------------
+\* one call record per activity; the update activity has two callers: the
+\* Update call and the reader of its rescan's error channel
+CallRec(i) == [k |-> acts[i].k, m |-> acts[i].m, st |-> cs[acts[i].k].st]
+UpdIx == {i \in 1..Len(acts) : acts[i].k = K_UPDATE}       \* at most one
+Calls ==
+  IF UpdIx = {} THEN [i \in 1..Len(acts) |-> CallRec(i)]
+  ELSE LET j == CHOOSE i \in UpdIx : TRUE IN
+       [i \in 1..(Len(acts) + 1) |->
+          IF i <= j THEN CallRec(i)
+          ELSE IF i = j + 1 THEN [k |-> K_RESCAN, m |-> 1, st |-> cs[K_RESCAN].st]
+          ELSE CallRec(i - 1)]
+
 StopStatus == IF g.sp = "idle" THEN S_NOT ELSE IF g.sp = "done" THEN S_DONE ELSE S_RUN
 
 Obs == [pool   |-> pool,
         dial   |-> misc.dial,
         never  |-> misc.never,
         stop   |-> StopStatus,
-        calls  |-> [i \in 1..Len(acts) |-> [k |-> acts[i].k, m |-> acts[i].m, st |-> cs[acts[i].k].st]],
+        calls  |-> Calls,
         reopen |-> misc.reopen]
 
 \* where the goroutines are (what a goroutine dump of the real process shows)
@@ -166,6 +179,20 @@ BeginRescan(m) ==
   /\ UNCHANGED <<pool, q, g, bat, err, tries, w, mtx, ux, bc, sb, misc>>
   /\ Finish(A("Begin", K_RESCAN, m, 0, "ok"))
 
+\* rescan.go:1442 Rescan.Start (a rescan that walks the chain, as BeginRescan(1))
+\* and, while it runs, rescan.go:1521 Rescan.Update from a second goroutine:
+\* select { r.updateChan <- uo | <-ro.quit | <-r.running } :1532.  The caller's
+\* own quit channel (ro.quit) stays open.
+BeginUpdate ==
+  /\ CanBegin(K_UPDATE)
+  /\ cs[K_RESCAN].st = C_NONE /\ cs[K_RESCAN].pc = "off"   \* the activity owns the rescan
+  /\ cs[K_SYNC].pc = "off"                                 \* (walk x mid-sync not explored)
+  /\ acts' = Append(acts, [k |-> K_UPDATE, m |-> 1])
+  /\ cs' = [cs EXCEPT ![K_RESCAN] = [st |-> C_PENDING, pc |-> "next"],
+                      ![K_UPDATE] = [st |-> C_PENDING, pc |-> "upd"]]
+  /\ UNCHANGED <<pool, q, g, bat, err, tries, w, mtx, ux, bc, sb, misc>>
+  /\ Finish(A("Begin", K_UPDATE, 1, 0, "ok"))
+
 \* neutrino.go:1535 SendTransaction -> Broadcaster.Broadcast :297
 BeginSendTx ==
   /\ CanBegin(K_SENDTX)
@@ -189,7 +216,7 @@ BeginSub ==
 \* fetching filter headers (checkpoint queries, batches, dispute resolution).
 BeginSync(m) ==
   /\ CanBegin(K_SYNC) /\ pool # P_EMPTY /\ g.sp = "idle"
-  /\ \A i \in 1..Len(acts) : ~(acts[i].k = K_RESCAN /\ acts[i].m = 1)
+  /\ \A i \in 1..Len(acts) : ~(acts[i].k = K_RESCAN /\ acts[i].m = 1) /\ acts[i].k # K_UPDATE
   /\ acts' = Append(acts, [k |-> K_SYNC, m |-> m])
   /\ cs' = [cs EXCEPT ![K_SYNC] = [st |-> C_NONE, pc |-> IF m = 0 THEN "hdr" ELSE "cfh"]]
   /\ UNCHANGED <<pool, q, g, bat, err, tries, w, mtx, ux, bc, sb, misc>>
@@ -888,6 +915,28 @@ RsMark ==
   /\ UNCHANGED <<g, bat, err, mtx, misc>> /\ RsFrame
   /\ Finish(I("RsMark"))
 
+\* Rescan.Update rescan.go:1532 select, arm r.updateChan <- uo: the rescan
+\* goroutine receives from ro.update where it looks at that channel: the
+\* non-blocking poll at the top of every catching-up iteration :697 and the
+\* select of a current rescan :549.  (Inside a fetch, inside chain.Subscribe
+\* and inside MarkAsConfirmed nobody receives: the call stays blocked.)
+UpdTaken ==
+  /\ Pending(K_UPDATE) /\ Pc(K_UPDATE) = "upd"
+  /\ Pending(K_RESCAN) /\ Pc(K_RESCAN) \in {"next", "cur"}
+  /\ cs' = Return(K_UPDATE, C_LEGIT)                       \* return nil :1547
+  /\ UNCHANGED <<g, bat, err, mtx, misc>> /\ RsFrame
+  /\ Finish(A("Ret", K_UPDATE, 0, C_LEGIT, "ok"))
+
+\* arm <-r.running :1537: the rescan goroutine has left rescan() and closed
+\* r.running :1460 (before it hands its error to Start's channel :1466):
+\* "Rescan is already done and cannot be updated."
+UpdDone ==
+  /\ Pending(K_UPDATE) /\ Pc(K_UPDATE) = "upd"
+  /\ Pc(K_RESCAN) \in {"ret_s", "ret_c", "ret_l", "ret"}
+  /\ cs' = Return(K_UPDATE, C_CANCEL)
+  /\ UNCHANGED <<g, bat, err, mtx, misc>> /\ RsFrame
+  /\ Finish(A("Ret", K_UPDATE, 0, C_CANCEL, "ok"))
+
 ----------------------------------------------------------------------------
 \*                    the remaining goroutines
 ----------------------------------------------------------------------------
@@ -950,7 +999,7 @@ Init ==
   /\ viol = {}
 
 Env ==
-  \/ BeginGetBlock \/ BeginGetCF \/ BeginSendTx \/ BeginSub
+  \/ BeginGetBlock \/ BeginGetCF \/ BeginSendTx \/ BeginSub \/ BeginUpdate
   \/ \E m \in {0, 1} : BeginGetUtxo(m) \/ BeginRescan(m) \/ BeginSync(m)
   \/ StopCall \/ Reopen
 
@@ -978,7 +1027,7 @@ Internal ==
   \/ CfhWrote \/ CfhNtfn
   \/ CfhRetryEnd \/ CfhCpqEnd \/ CfhGetblkEnd \/ CfhCheck
   \/ \E b \in BOOLEAN : RsNext(b) \/ RsGot(b)
-  \/ RsFLock \/ RsMark \/ RsRetry \/ RsRet
+  \/ RsFLock \/ RsMark \/ RsRetry \/ RsRet \/ UpdTaken \/ UpdDone
   \/ BwQuit \/ PhQuit \/ DialEnd
 
 Next == Env \/ Internal
@@ -1014,6 +1063,7 @@ Fair ==
   /\ WF_vars(CfhRetryEnd) /\ WF_vars(CfhCpqEnd) /\ WF_vars(CfhGetblkEnd) /\ WF_vars(CfhCheck)
   /\ WF_vars(\E b \in BOOLEAN : RsNext(b)) /\ WF_vars(\E b \in BOOLEAN : RsGot(b))
   /\ WF_vars(RsFLock) /\ WF_vars(RsMark) /\ WF_vars(RsRetry) /\ WF_vars(RsRet)
+  /\ WF_vars(UpdTaken) /\ WF_vars(UpdDone)
   /\ WF_vars(BwQuit) /\ WF_vars(PhQuit) /\ WF_vars(DialEnd)
 
 LSpec == Spec /\ Fair
@@ -1062,7 +1112,7 @@ PCS == <<"idle", "connmgr", "bcast_wait", "utxo_wait", "wm_wait", "sub_wait", "s
          "wait", "send", "sub", "queued", "ok", "fail", "shut", "cancel", "timeout", "disc",
          "free", "cf", "ux", "rs", "gb", "ch", "cg", "open", "closed", "off", "lock", "reg", "next",
          "flock", "filter", "block", "mark", "read", "waitblk", "cur", "hdr", "cfh", "ret",
-         "ret_s", "ret_c", "ret_l", "nsh", "regw", "wr", "b", "u", "r">>
+         "ret_s", "ret_c", "ret_l", "nsh", "regw", "wr", "b", "u", "r", "upd">>
 PIdx == [v \in {PCS[i] : i \in 1..Len(PCS)} |-> CHOOSE i \in 1..Len(PCS) : PCS[i] = v]
 Ix(seq, v) == PIdx[v]
 OSEQ == <<"gb", "cf", "ux", "rs", "ch", "cg">>
@@ -1086,7 +1136,7 @@ State == <<pool>>
          \o [i \in 1..3 |-> B2I(SSEQ[i] \in sb.squit)]
          \o [i \in 1..Len(acts) |-> 10 * acts[i].k + acts[i].m]
          \o <<99>>
-         \o [i \in 1..7 |-> 100 * cs[i].st + Ix(PCS, cs[i].pc)]
+         \o [i \in 1..8 |-> 100 * cs[i].st + Ix(PCS, cs[i].pc)]
          \o <<Ix(PCS, g.flk), Ix(PCS, sb.rq), Ix(PCS, sb.ans),
               B2I(misc.pdisc), misc.reopen, misc.rsn, B2I(misc.rretry), misc.never, misc.dial, B2I(abs.stopped)>>
 View  == <<pool, q, g, bat, err, tries, w, mtx, ux, bc, sb, acts, cs, misc, abs>>
